@@ -66,6 +66,10 @@ THEOREMS = [
     'CpProofs.C17.sortAsc_stable',
     'CpProofs.C17.acceptElements_sorted_full',
     'CpProofs.C17.splitHeader_noQuote',
+    'CpProofs.C17.qSplit_q',
+    'CpProofs.C17.parseHeader_plain',
+    'CpProofs.C17.C17_simple_element',
+    'CpProofs.C17.C17_simple_element_q',
     # eligibility, Vary, Content-Type rewrite, both tools, member header (C17Mime.lean)
     'CpProofs.C17.join_split',
     'CpProofs.C17.split_two',
@@ -92,43 +96,63 @@ TECHNIQUE = ('Lean 4 proof over a hand model of encoding.compress / encoding.gzi
              'theorems by induction over the element list), tied to the code by a differential run (decisions, headers, '
              'chosen charset, byte-for-byte gzip member) with gzip.decompress / bytes.decode as independent oracle')
 LEVEL_TEXT = ('Proved for every chunking (incl. empty chunks), level, MTIME and every lawful raw-deflate parameter: the '
-              'member built by compress() parses under an RFC 1952 checking parser back to the concatenated body '
-              '(streaming CRC-32 = CRC-32 of the concatenation, ISIZE = length mod 2^32); compress sets Content-Encoding: '
-              'gzip, Vary containing Accept-Encoding and drops Content-Length; passthrough leaves body and coding headers '
-              'alone; compress only if a gzip/x-gzip element has q != 0; 406 (repaired code) only if identity or * carries '
-              'q = 0, no identity element has q != 0 and no gzip element was listed; for every element list in descending q '
-              'order and every canEncode: a buffered choice can encode the whole text, has q > 0 (or is the forced / default '
-              '/ ISO-8859-1 fallback), no listed charset with strictly higher q can, 406 only if no candidate can; the '
-              'emitted bytes decode to the original text for concatenative codecs. Partial: zlib and the codecs are '
-              'parameters; soundness for multi-chunk bodies under BOM-emitting codecs and for streamed bodies is proved '
-              'FALSE (known findings F18b, F18c) and holds only under the stated hypotheses; exotic float() notations of '
-              'q-values are outside the model.')
+              'member built by compress() parses under an RFC 1952 checking parser (and under a general reader that '
+              'honours every FLG bit: FLG = 0, no FEXTRA/FNAME/FCOMMENT/FHCRC, deflate data from offset 10) back to the '
+              'concatenated body (streaming CRC-32 = CRC-32 of the concatenation, ISIZE = length mod 2^32); the ten header '
+              'bytes of the live compress() for every level (regenerated table) are the model\'s; compress sets '
+              'Content-Encoding: gzip, Vary containing Accept-Encoding (existing members kept) and drops Content-Length; '
+              'passthrough leaves body and coding headers alone; compress only if a gzip/x-gzip element has q != 0 AND the '
+              'media type is eligible under the documented relation (exact | type/* | type/*+suffix with the same top-level '
+              'type), which the matching decides exactly (yes => eligible, no => not eligible, else ValueError); 406 only '
+              'if identity or * carries q = 0, no identity element has q != 0 and no gzip element was listed. q-values: the '
+              'whole float() grammar (sign, PEP 515 underscores, fraction, exponent, inf/nan, overflow to inf, underflow to '
+              '0) is modelled with exact decimal keys; every comparison depends on the ORDER of the values only (any '
+              'strictly monotone re-labelling, e.g. rounding to doubles, changes no comparison, no sort, no decision); '
+              '__lt__ is a strict weak order, sorted() yields the inversion-free stable arrangement. Charset: for every '
+              'element list and every canEncode a buffered choice can encode the whole text, has q > 0 (or is the forced / '
+              'default / ISO-8859-1 fallback), no listed charset with strictly higher q can, 406 only if no candidate can; '
+              'the tool negotiates only with add_charset and (text_only) a text/* type; the Content-Type rewrite sets '
+              'charset and moves nothing else; with both tools on, the gzip member wraps the charset-encoded bytes and '
+              'eligibility is judged on the handler\'s media type. Partial: zlib and the codecs are parameters; soundness '
+              'for multi-chunk bodies under BOM-emitting codecs and for streamed bodies is proved FALSE (known findings '
+              'F18b, F18c; fixes proposed for F18c and F18e) and holds only under the stated hypotheses; q texts with more '
+              'than 15 significant digits or a magnitude next to the double overflow/underflow thresholds, and lists of two '
+              'or more elements containing a nan (sorted() has no defined result there), are outside the model.')
 LEVEL_NOTE = ('Trusted: Lean kernel (propext, Classical.choice, Quot.sound only); the hand models Gzip.lean/Negotiate.lean '
               'as validated by the differential run; zlib raw deflate as the parameter Z (contract checked against '
               'zlib.decompressobj(-15) on every generated member, not proved); Python codecs as the parameters canEncode / '
-              'Codec; CPython str/re/float semantics of the transcribed primitives; the harness.')
+              'Codec; CPython str/re/float semantics of the transcribed primitives (decimal -> double is strictly monotone '
+              'for <= 15 significant digits in the normal range: checked on every generated q text against float() and an '
+              'independent decimal classification); the harness.')
 TRUSTED_BASE = [
     'zlib raw deflate is a parameter Z of the model with contract Z.Lawful (inflate inverts deflate for every chunking); '
     'validated on every generated member with zlib.decompressobj(-15), not proved',
     'Python codecs are parameters (canEncode, Codec.enc/dec with the round-trip law per chunk); UTF-8 etc. are not re-verified',
-    'CPython semantics of str.split/strip/find/count/replace/lower, re.split, float(), sorted() stability as transcribed',
+    'CPython semantics of str.split/strip/find/count/replace/lower, re.split, float() (correct rounding: strictly monotone '
+    'on decimals of <= 15 significant digits within 1e-307..1e308), sorted() = a stable sort for strict weak orders',
+    'the hook machinery runs before_handler hooks before the handler and before_finalize hooks after it (C09); the points '
+    'and priorities of tools.encode / tools.gzip are regenerated and pinned',
 ]
 ASSUMPTIONS = [
     'header values are Latin-1 text without control characters other than TAB and without RFC 2047 "=?" words',
-    'q-values written in exotic float() notations (exponent, underscores, inf/nan, > 15 digits) are outside the model; '
-    'such cases are checked by the lenient oracle only',
+    'q texts with more than 15 significant digits, with a magnitude within 1e308..1e309 or 1e-325..1e-307, and element '
+    'lists (>= 2 elements) containing a nan are outside the model (class exotic): such cases are checked by the oracle only; '
+    'the harness checks on every run that the model says exotic exactly for these',
     'model mirrors the repaired code (fix commits 73c184c gzip 406, 7323e54 encode_string iterator); on a tree without '
     'them the check reports F18 / F18d as violations',
     'response Content-Types with more than one "/" or more than one "+" (ValueError in the mime matching) are modelled '
     'as crash but kept out of the generated stream',
 ]
 RULE = ('gzip: bodies 0..300 KiB (random / text / zeros) in random chunkings incl. empty chunks x level 0..9 x body kind '
-        '(bytes, list, generator, streamed) x Accept-Encoding grammar (gzip, x-gzip, identity, *, other codings, q in many '
-        'spellings, lists, junk) x Content-Type vs mime_types patterns x pre-set Vary / Content-Length / MTIME; charset: '
-        'Unicode texts over several scripts in 1..n str chunks x Accept-Charset grammar x forced encoding x text_only x '
-        'add_charset x streamed/buffered; unit level: header_elements on grammar + junk strings, crc32 vs zlib.crc32, '
-        'compress() on chunk lists. Non-trivial = the tool had something to decide (non-empty body and a header, or a '
-        'text body); distinct = distinct canonical case JSON')
+        '(bytes, list, generator, file, streamed) x Accept-Encoding grammar (gzip, x-gzip, identity, *, other codings, q in '
+        'many spellings incl. the float() grammar, lists, junk) x Content-Type vs mime_types patterns (fixed pool + a grid '
+        'of media types x pattern forms with top-level type and suffix varied independently) x pre-set Vary / '
+        'Content-Length / MTIME x debug; charset: Unicode texts over several scripts (incl. a lone surrogate) in 0..n str '
+        'chunks x Accept-Charset grammar x forced encoding x text_only x add_charset x streamed/buffered/None; both tools '
+        'on one text response (Accept-Charset x Accept-Encoding x media type x mime_types); unit level: header_elements on '
+        'grammar + junk strings + the element shapes pinned in Lean, float() on q texts, crc32 vs zlib.crc32, compress() on '
+        'chunk lists. Non-trivial = the tool had something to decide (non-empty body and a header, or a text body); '
+        'distinct = distinct canonical case JSON')
 
 # ----------------------------------------------------------------------------------------------
 # tables regenerated from the live modules
@@ -780,8 +804,8 @@ def oracle_cs(case, obs):
             else:
                 names = [n.lower() for n, q in els]
                 cands = [n for n, q in els if n != '*' and q > 0]
-                if any(n == '*' and q > 0 for n, q in els):
-                    cands.append('utf-8')
+                if any(n == '*' and q > 0 for n, q in els) and 'utf-8' not in names:
+                    cands.append('utf-8')   # "*" stands for the server default unless the client ranks that itself
                 if '*' not in names and 'iso-8859-1' not in names:
                     cands.append('iso-8859-1')
                 good = [n for n in cands if listed_can(n)]
